@@ -184,7 +184,9 @@ func variants(root *node, fault string, s site) []string {
 		return []string{"missing", "suffix", "empty-frag", "no-hash", "bad-escape", "tilde", "slash-end"}
 	case "cycle":
 		if n.K == kMap {
-			return []string{"replace-self", "allOf-self", "oneOf-self", "anyOf-self", "replace-root", "items-allOf-self"}
+			return []string{"replace-self", "allOf-self", "oneOf-self", "anyOf-self", "replace-root", "items-allOf-self",
+				// the schema reaches itself only through an ANONYMOUS sum nested in a sum, beside honest variants
+				"oneOf-in-oneOf-self", "anyOf-in-oneOf-self", "oneOf-in-anyOf-self", "allOf-in-oneOf-self", "oneOf-in-allOf-self"}
 		}
 		return []string{"self", "parent", "root", "grandparent"}
 	case "dupname":
@@ -475,6 +477,10 @@ func apply(base *node, fault, arg string, s site) (a applied, ok bool) {
 				set(mapping("$ref", str("#")))
 			case "allOf-self", "oneOf-self", "anyOf-self":
 				set(mapping(strings.TrimSuffix(arg, "-self"), sequence(self)))
+			case "oneOf-in-oneOf-self", "anyOf-in-oneOf-self", "oneOf-in-anyOf-self", "allOf-in-oneOf-self", "oneOf-in-allOf-self":
+				parts := strings.Split(strings.TrimSuffix(arg, "-self"), "-in-")
+				inner := mapping(parts[0], sequence(self, mapping("type", str("integer"))))
+				set(mapping(parts[1], sequence(inner, mapping("type", str("string")))))
 			case "items-allOf-self":
 				set(mapping("type", str("array"), "items", mapping("allOf", sequence(self))))
 			default:
